@@ -323,6 +323,117 @@ def _label_by_cases(prog, sa, key: str, bparam: str):
     return out
 
 
+def _cache_coherent_at(prog, R, fn, attr: str, at) -> Optional[bool]:
+    """``self.<attr>`` holds inverse_transf(self.u) at the program point ``at`` of ``fn`` on every path: must-dataflow with
+    gen = ``self.<attr> = VT.inverse_transf(self.u[.flatten()/.copy()])``, kill = any store to self.u (or to the attribute
+    from something else), and method summaries (a callee that stores self.u must have re-established the cache at each of
+    its exits; a callee that touches neither leaves the fact alone).  None when fn cannot be analysed."""
+    from ..flow import BasePolicy, TagFlow
+    from ..model import FunctionInfo
+
+    COH = frozenset({"COH"})
+    memo = {}
+    touches = {}
+
+    def touched(f):
+        if f not in touches:
+            touches[f] = any(self_attr_of(t) in ("u", attr) for t, v, s, k in iter_stores(f.node))
+        return touches[f]
+
+    def reach_touch(f):
+        return touched(f) or any(touched(g) for g in prog.reachable_from(f) if isinstance(g, FunctionInfo) and g.cls is fn.cls)
+
+    def is_gen(v):
+        if not (isinstance(v, ast.Call) and isinstance(v.func, ast.Attribute) and v.func.attr == R.inverse.name and v.args):
+            return False
+        a = v.args[0]
+        while isinstance(a, ast.Call) and isinstance(a.func, ast.Attribute) and a.func.attr in ("flatten", "copy", "ravel") and not a.args:
+            a = a.func.value
+        return canon(a) == "self.u"
+
+    def strip_copy_(v):
+        while isinstance(v, ast.Call) and isinstance(v.func, ast.Attribute) and v.func.attr in ("copy", "flatten") and not v.args:
+            v = v.func.value
+        return canon(v)
+
+    class P(BasePolicy):
+        def __init__(self, depth, init=frozenset()):
+            self.depth, self.init = depth, init
+
+        def initial(self, flow):
+            return {"@cache": self.init}
+
+        def eval(self, expr, state, flow):
+            return EMPTY_
+
+        def eval_unpack(self, value, i, n, state, flow):
+            return EMPTY_
+
+        def after_stmt(self, node, state, flow):
+            s_ = node.stmt
+            if node.kind != "stmt" or s_ is None:
+                return state
+            cur = state.get("@cache", EMPTY_)
+            # calls first (evaluated before the store of an assignment), in source order
+            for c in [n for n in ast.walk(s_) if isinstance(n, ast.Call)]:
+                for tg in prog.resolve_call(flow.fn, c):
+                    if isinstance(tg, FunctionInfo) and tg.cls is not None and fn.cls is not None and tg.cls in fn.cls.mro() + fn.cls.subclasses(prog) and reach_touch(tg):
+                        bot_, top_ = summary(tg, self.depth + 1)
+                        cur = bot_ | (cur & top_)  # gen / preserve of the callee
+            usrc = state.get("@usrc", EMPTY_)
+            for t, v, s2, k in iter_stores(s_):
+                a = self_attr_of(t)
+                whole = isinstance(t, ast.Attribute) and k == "assign"
+                if a == "u":
+                    if whole and strip_copy_(v) == "self.u_best" and "BEQ" in cur:
+                        continue  # re-synchronised from the mirror slot, which equals self.u: the value does not change
+                    cur = EMPTY_
+                    usrc = frozenset({strip_copy_(v)}) if whole and v is not None else EMPTY_
+                elif a == "u_best":
+                    src_ = strip_copy_(v) if whole and v is not None else None
+                    cur = (cur | {"BEQ"}) if src_ is not None and (src_ == "self.u" or src_ in usrc) else (cur - {"BEQ"})
+                elif a == attr:
+                    cur = (cur | COH) if (whole and is_gen(v)) else (cur - COH)
+            state["@cache"] = cur
+            state["@usrc"] = usrc
+            return state
+
+    EMPTY_ = frozenset()
+
+    def summary(f, depth):
+        """(facts the callee establishes whatever held at its entry, facts it preserves)"""
+        if f in memo:
+            return memo[f]
+        if depth > 4:
+            return (EMPTY_, EMPTY_)
+        memo[f] = (EMPTY_, EMPTY_)  # recursion: assume nothing
+        res = []
+        for init in (EMPTY_, frozenset({"COH", "BEQ"})):
+            fl = TagFlow(prog, f, P(depth, init))
+            acc = None
+            for r_ in [n for n in ast.walk(f.node) if isinstance(n, ast.Return) and prog.function_of(n) is f]:
+                st = fl.state_before(r_)
+                if st is not None:
+                    t_ = st.get("@cache", EMPTY_)
+                    acc = t_ if acc is None else acc & t_
+            end = fl.inn.get(fl.cfg.exit.id)
+            if end is not None and not any(isinstance(b, ast.Return) for b in f.node.body[-1:]):
+                t_ = end.get("@cache", EMPTY_)
+                acc = t_ if acc is None else acc & t_
+            res.append(acc if acc is not None else EMPTY_)
+        memo[f] = (res[0], res[1])
+        return memo[f]
+
+    try:
+        fl = TagFlow(prog, fn, P(0))
+        st = fl.state_before(at)
+    except Exception:
+        return None
+    if st is None:
+        return None
+    return "COH" in st.get("@cache", EMPTY_)
+
+
 def check(ctx):
     prog = ctx.prog
     R = roles_of(prog)
@@ -398,7 +509,22 @@ def check(ctx):
         if "x" in keys:
             xv = keys["x"][1]
             ok = isinstance(xv, ast.Call) and isinstance(xv.func, ast.Attribute) and xv.func.attr == R.inverse.name and canon(xv.func.value) == "VT" and xv.args and (canon(xv.args[0]) == canon(u_expr) or canon(_dx(prog, opt, xv.args[0])) == canon(_dx(prog, opt, u_expr)))
-            ctx.check(bool(ok), opt, keys["x"][0], "'x' = inverse_transf(expression recorded as 'u')", "history key 'x' is not the inverse transform of the point recorded as 'u'", construct=f"record x <- {canon(xv)}")
+            if not ok and canon(base) == "self.u":
+                # the original-space incumbent kept in an attribute next to self.u (a cache): accepted where the cache is
+                # coherent with self.u on every path to the record
+                xb = xv
+                while isinstance(xb, ast.Call) and isinstance(xb.func, ast.Attribute) and xb.func.attr in ("copy", "flatten") and not xb.args:
+                    xb = xb.func.value
+                ca = self_attr_of(xb) if isinstance(xb, ast.Attribute) else None
+                if ca and ca != "u":
+                    coh = _cache_coherent_at(prog, R, opt, ca, keys["x"][0])
+                    if coh:
+                        ok = True
+                    elif coh is False:
+                        ctx.fail(opt, keys["x"][0], f"history key 'x' records self.{ca}, which is not inverse_transf(self.u) on every path to the record: self.u is re-assigned on some path without self.{ca} being refreshed (stale cache)", construct=f"record x <- stale self.{ca}")
+                        ok = None
+            if ok is not None:
+                ctx.check(bool(ok), opt, keys["x"][0], "'x' = inverse_transf(expression recorded as 'u')", "history key 'x' is not the inverse transform of the point recorded as 'u'", construct=f"record x <- {canon(xv)}")
     for k, src in want_src.items():
         if k in keys:
             v = keys[k][1]
